@@ -6,13 +6,13 @@ Model: Model/Types.lean (refurb/checks/common.py:540-783 + FURB123).  Tables: Ge
 
 Three groups of statements, all over types / expressions / MROs of any size:
 
-1. `is_same_type` against the PROPERTY's notion `Exactly` ("mypy infers exactly that class"): the full statement is
-   false of today's code (a NamedTuple's `TupleType` passes for `tuple`; the class object `str` passes for `str`),
-   it holds under the guard `Guarded`; Any / unions / None / type variables / callables / literals / other classes /
-   an unresolved operand never pass for a concrete class, through alias chains of any depth.
+1. `is_same_type` against the PROPERTY's notion `Exactly` ("mypy infers exactly that class"): whatever passes is —
+   through alias chains of any depth — an instance of exactly the expected class (a real tuple for `tuple`: a
+   NamedTuple is rejected, and so is the class object itself); Any / unions / None / type variables / callables /
+   literals / other classes / an unresolved operand never pass for a concrete class.
 2. `get_mypy_type` against a reference inference relation `Res` (`Infers` for results that are types): the full
-   statement is false (a walrus is typed by its target, a narrowed name by its declaration, an enum member by its
-   value, a subscript of a union by the last member's `__getitem__`), it holds for `Plain` expressions.
+   statement is false (a name narrowed by isinstance() is typed by its declaration: refurb has no flow-sensitive
+   types), it holds for `Plain` expressions.
 3. `is_subclass` over MROs of any length, and the end-to-end statement for FURB123.
 -/
 import RefurbVerif.Model.Types
@@ -100,43 +100,27 @@ theorem isSameType_append (tbl : SimpleTypes) (v : Option Val) (es fs : List Exp
     isSameType tbl v (es ++ fs) = (isSameType tbl v es || isSameType tbl v fs) := by
   simp [isSameType, List.any_append]
 
-/-- the full statement: whatever passes `is_same_type(ty, T)` is exactly of class `T` -/
-def FullIsSameTypeExact : Prop :=
-  ∀ (v : Option Val) (T : Expected), isSameType simpleTypes v [T] = true → Exactly v T
-
-/-- the NamedTuple witness: `nt: NT` (mypy: alias → TupleType with fallback `m.NT`) passes for `tuple` -/
-def namedTupleTy : Ty := .alias (.tuple [.inst "builtins.int" [], .inst "builtins.str" []] "m.NT")
-
-theorem namedTuple_passes : isSameType simpleTypes (some (.ty namedTupleTy)) [.pyType "tuple"] = true := by
-  decide +kernel
-
-theorem namedTuple_not_exact : ¬ Exactly (some (.ty namedTupleTy)) (.pyType "tuple") := by
-  simp [Exactly, namedTupleTy, ExactlyTy]
-
-/-- FALSE today: FURB123 tells the user to replace `tuple(nt)` by `nt` for a NamedTuple `nt` -/
-theorem isSameType_exact_refuted : ¬ FullIsSameTypeExact := fun h =>
-  namedTuple_not_exact (h _ _ namedTuple_passes)
-
-/-- second, independent witness: the class object `str` (what `get_mypy_type` returns for the NAME `str`) passes
-    for `str`, so `str(str)` is reported as redundant -/
-theorem classObject_passes : isSameType simpleTypes (some (.info "builtins.str")) [.pyType "str"] = true := by
-  decide +kernel
-
-theorem classObject_not_exact : ¬ Exactly (some (.info "builtins.str")) (.pyType "str") := by
-  simp [Exactly]
-
-/-- the guard: no NamedTuple-style tuple type (alias chains looked through), class names are real (dotted)
-    fullnames, and the resolver's answer is a type, not a class object -/
-def GuardedTy : Ty → Prop
-  | .alias t => GuardedTy t
-  | .tuple _ fb => fb = "builtins.tuple"
+/-- real class fullnames are dotted: no instance is called "Any" or "None" (the two pseudo-keys of `SIMPLE_TYPES`) -/
+def WellNamedTy : Ty → Prop
+  | .alias t => WellNamedTy t
   | .inst c _ => c ≠ "Any" ∧ c ≠ "None"
   | _ => True
 
-def Guarded : Option Val → Prop
-  | some (.info _) => False
-  | some (.ty t) => GuardedTy t
+def WellNamed : Option Val → Prop
+  | some (.ty t) => WellNamedTy t
   | _ => True
+
+/-- `nt: NT` for a NamedTuple class (mypy: alias → TupleType with fallback `m.NT`) -/
+def namedTupleTy : Ty := .alias (.tuple [.inst "builtins.int" [], .inst "builtins.str" []] "m.NT")
+
+/-- a NamedTuple does not pass for `tuple`: `tuple(nt)` is a conversion, not a no-op -/
+theorem namedTuple_rejected : isSameType simpleTypes (some (.ty namedTupleTy)) [.pyType "tuple"] = false := by
+  decide +kernel
+
+/-- the class object `str` (what `get_mypy_type` returns for the NAME `str`) does not pass for `str` -/
+theorem classObject_rejected (tbl : SimpleTypes) (c : String) (es : List Expected) :
+    isSameType tbl (some (.info c)) es = false := by
+  simp [isSameType, isSame1]
 
 theorem isSameName_exact {tbl : SimpleTypes} (ok : TableOK tbl) {c : String} {T : Expected}
     (hc : c ≠ "Any" ∧ c ≠ "None") (h : isSameName tbl c T = true) :
@@ -177,23 +161,23 @@ theorem isSameName_exact {tbl : SimpleTypes} (ok : TableOK tbl) {c : String} {T 
       · exact h
 
 theorem isSameTy_exact {tbl : SimpleTypes} (ok : TableOK tbl) :
-    ∀ (t : Ty) (T : Expected), GuardedTy t → isSameTy tbl t T = true → ExactlyTy t T
+    ∀ (t : Ty) (T : Expected), WellNamedTy t → isSameTy tbl t T = true → ExactlyTy t T
   | .alias t, T, g, h => by
     simp only [isSameTy] at h
     simp only [ExactlyTy]
-    exact isSameTy_exact ok t T (by simpa [GuardedTy] using g) h
-  | .tuple _ fb, T, g, h => by
+    exact isSameTy_exact ok t T (by simpa [WellNamedTy] using g) h
+  | .tuple _ fb, T, _, h => by
     simp [isSameTy] at h
-    subst h
-    simp [GuardedTy] at g
-    simp [ExactlyTy, g]
+    obtain ⟨hT, hfb⟩ := h
+    subst hT
+    simp [ExactlyTy, hfb]
   | .any, T, _, h => by
     simp [isSameTy] at h
     subst h
     simp [ExactlyTy]
   | .inst c _, T, g, h => by
     simp only [isSameTy] at h
-    have := isSameName_exact ok (by simpa [GuardedTy] using g) h
+    have := isSameName_exact ok (by simpa [WellNamedTy] using g) h
     cases T <;> simp_all [ExactlyTy]
   | .none, _, _, h => by simp [isSameTy] at h
   | .union _, _, _, h => by simp [isSameTy] at h
@@ -204,11 +188,11 @@ theorem isSameTy_exact {tbl : SimpleTypes} (ok : TableOK tbl) :
   | .uninhabited, _, _, h => by simp [isSameTy] at h
   | .other, _, _, h => by simp [isSameTy] at h
 
-/-- TRUE under the guard, for any well-formed table and any expectation list: a type that passes `is_same_type` is,
-    after expanding aliases of any depth, an instance of exactly one of the expected classes (a real tuple for
-    `tuple`), and an operand without an answer only passes for the expectation `None` -/
-theorem isSameType_exact_partial {tbl : SimpleTypes} (ok : TableOK tbl) (v : Option Val) (es : List Expected)
-    (g : Guarded v) (h : isSameType tbl v es = true) : ∃ T ∈ es, Exactly v T := by
+/-- For any well-formed table and any expectation list: what passes `is_same_type` is a type that, after expanding
+    aliases of any depth, is an instance of exactly one of the expected classes (a real tuple for `tuple`, never a
+    NamedTuple; never the class object); an operand without an answer only passes for the expectation `None` -/
+theorem isSameType_exact {tbl : SimpleTypes} (ok : TableOK tbl) (v : Option Val) (es : List Expected)
+    (g : WellNamed v) (h : isSameType tbl v es = true) : ∃ T ∈ es, Exactly v T := by
   obtain ⟨T, hT, h1⟩ := (isSameType_iff tbl v es).mp h
   refine ⟨T, hT, ?_⟩
   match v, g, h1 with
@@ -217,8 +201,8 @@ theorem isSameType_exact_partial {tbl : SimpleTypes} (ok : TableOK tbl) (v : Opt
   | some (.ty t), g, h1 =>
     simp only [isSame1] at h1
     simp only [Exactly]
-    exact isSameTy_exact ok t T (by simpa [Guarded] using g) h1
-  | some (.info c), g, _ => simp [Guarded] at g
+    exact isSameTy_exact ok t T (by simpa [WellNamed] using g) h1
+  | some (.info c), _, h1 => simp [isSame1] at h1
   | some (.aliasNode _), _, h1 => simp [isSame1] at h1
   | some (.file _), _, h1 => simp [isSame1] at h1
 
@@ -291,7 +275,7 @@ theorem never_qualify {tbl : SimpleTypes} (ok : TableOK tbl) {T : Expected} (hT 
     | other => simp [isSameTy]
     | aliasUnresolved => simp [isSameTy]
     | inst c args hd => simpa [isSameTy] using isSameName_differs ok hT hd
-    | tuple items fb hne => simpa [isSameTy] using hne
+    | tuple items fb hne => simp [isSameTy, hne]
     | alias t _ ih => simpa [isSameTy] using ih
   simp [isSameType, isSame1, key]
 
@@ -339,9 +323,10 @@ inductive Res (Γ : Ctx) : Expr → Val → Prop
   | tupleE' {c} (items) : builtinType Γ "tuple" = some (.inst c []) → Res Γ .tupleE (.ty (.tuple items c))
   | memberNarrowed {e n t} : Res Γ (.member e n (some t)) (.ty t)
   /-- an enum member reached through its class has the enum's type, not the type of its value -/
-  | memberEnum {e c n} : Res Γ e (.info c) → Γ.isEnumMember c n = true → Res Γ (.member e n none) (.ty (.inst c []))
-  | memberClass {e c n s v} : Res Γ e (.info c) → Γ.isEnumMember c n = false →
-      (Γ.classNames c).lookup n = some s → symVal s = some v → Res Γ (.member e n none) v
+  | memberEnum {e c n t} : Res Γ e (.info c) → (Γ.classNames c).lookup n = some (.var t) → Γ.isEnumMember c n = true →
+      Res Γ (.member e n none) (.ty (.inst c []))
+  | memberClass {e c n s v} : Res Γ e (.info c) → (Γ.classNames c).lookup n = some s →
+      (Γ.isEnumMember c n = false ∨ ∀ t, s ≠ .var t) → symVal s = some v → Res Γ (.member e n none) v
   | memberModule {e m n s v} : Res Γ e (.file m) → (Γ.moduleNames m).lookup n = some s → symVal s = some v →
       Res Γ (.member e n none) v
   | memberInst {e t c n s v} : Res Γ e (.ty t) → t.cls = some c → Γ.lookupMro c n = some s → symVal s = some v →
@@ -355,7 +340,7 @@ inductive Res (Γ : Ctx) : Expr → Val → Prop
   /-- operators, indexing: the return type of the dunder method mypy selected -/
   | unary {o r} : (o == "not") = false → Res Γ (.unary o (some (.callable r))) (.ty r)
   | op {o r} : Res Γ (.op o (some (.callable r))) (.ty r)
-  | index {r} : Res Γ (.index (some (.callable r)) false) (.ty r)
+  | index {b r} : Res Γ (.index b (some (.callable r)) false) (.ty r)
   | awaitCoroutine {e a b r} : Res Γ e (.ty (.inst "typing.Coroutine" [a, b, r])) → Res Γ (.await e) (.ty r)
   | awaitTask {e r} : Res Γ e (.ty (.inst "asyncio.tasks.Task" [r])) → Res Γ (.await e) (.ty r)
   | lambda {b t} : Res Γ b (.ty t) → Res Γ (.lambda b) (.ty (.callable t))
@@ -371,29 +356,46 @@ theorem builtin_inst {Γ : Ctx} {n : String} {t : Ty} (h : builtinType Γ n = so
   · simp at h; exact ⟨_, h.symm⟩
   · simp at h
 
-theorem memberOf_sound {Γ : Ctx} {e : Expr} {n : String} {recv v : Val}
-    (hr : Res Γ e recv) (hne : enumAccess Γ (some recv) n = false) (h : memberOf Γ (some recv) n = some v) :
+theorem classAttrRef_sound {Γ : Ctx} {e : Expr} {c n : String} {s : Sym} {v : Val}
+    (hr : Res Γ e (.info c)) (hl : (Γ.classNames c).lookup n = some s) (h : classAttrRef Γ c n s = some v) :
     Res Γ (.member e n none) v := by
-  unfold memberOf at h
+  unfold classAttrRef at h
   split at h
-  · rename_i m heq
-    cases heq
-    cases hl : (Γ.moduleNames m).lookup n with
-    | none => simp [hl] at h
-    | some s => simp [hl] at h; exact .memberModule hr hl h
+  · rename_i t
+    by_cases hm : Γ.isEnumMember c n = true
+    · simp [hm] at h; subst h; exact .memberEnum hr hl hm
+    · have hm : Γ.isEnumMember c n = false := by simpa using hm
+      simp only [hm] at h
+      exact .memberClass hr hl (Or.inl hm) (by simpa [symVal] using h)
+  · rename_i hnv
+    exact .memberClass hr hl (Or.inr (fun t ht => hnv t ht)) h
+
+theorem memberRef_sound {Γ : Ctx} {e : Expr} {n : String} {recv v : Val}
+    (hr : Res Γ e recv) (h : memberRef Γ (some recv) n = some v) : Res Γ (.member e n none) v := by
+  unfold memberRef at h
+  split at h
   · rename_i c heq
     cases heq
     cases hl : (Γ.classNames c).lookup n with
     | none => simp [hl] at h
-    | some s =>
-      simp [hl] at h
-      exact .memberClass hr (by simpa [enumAccess] using hne) hl h
-  · rename_i c args heq
-    cases heq
-    cases hl : Γ.lookupMro c n with
-    | none => simp [hl] at h
-    | some s => simp [hl] at h; exact .memberInst hr (by simp [Ty.cls]) hl h
-  · simp at h
+    | some s => simp [hl] at h; exact classAttrRef_sound hr hl h
+  · rename_i hni
+    unfold memberOf at h
+    split at h
+    · rename_i m heq
+      cases heq
+      cases hl : (Γ.moduleNames m).lookup n with
+      | none => simp [hl] at h
+      | some s => simp [hl] at h; exact .memberModule hr hl h
+    · rename_i c heq
+      cases heq
+      exact absurd rfl (hni c)
+    · rename_i c args heq
+      cases heq
+      cases hl : Γ.lookupMro c n with
+      | none => simp [hl] at h
+      | some s => simp [hl] at h; exact .memberInst hr (by simp [Ty.cls]) hl h
+    · simp at h
 
 theorem callOf_sound {Γ : Ctx} {f : Expr} {fv v : Val} (hf : Res Γ f fv) (hsp : specialCall Γ (some fv) = false)
     (h : callOf (some fv) = some v) : Res Γ (.call f) v := by
@@ -475,24 +477,7 @@ theorem inferRef_sound (Γ : Ctx) : ∀ (e : Expr) (v : Val), inferRef Γ e = so
       simp only at h
       cases hr : inferRef Γ e with
       | none => simp [hr, memberRef, memberOf] at h
-      | some recv =>
-        have hres := ih recv hr
-        rw [hr] at h
-        unfold memberRef at h
-        split at h
-        · rename_i c heq
-          cases heq
-          by_cases hen : Γ.isEnumMember c n = true
-          · simp [hen] at h; subst h; exact .memberEnum hres hen
-          · have hen' : Γ.isEnumMember c n = false := by simpa using hen
-            simp only [hen'] at h
-            exact memberOf_sound hres (by simpa [enumAccess] using hen') (by simpa using h)
-        · rename_i hnot
-          refine memberOf_sound hres ?_ h
-          unfold enumAccess
-          split
-          · rename_i c heq; exact absurd heq (hnot c)
-          · rfl
+      | some recv => rw [hr] at h; exact memberRef_sound (ih recv hr) h
   | castCall t => intro v h; simp [inferRef] at h; subst h; exact .castCall
   | call f ih =>
     intro v h
@@ -514,7 +499,7 @@ theorem inferRef_sound (Γ : Ctx) : ∀ (e : Expr) (v : Val), inferRef Γ e = so
       obtain ⟨r, rfl, rfl⟩ := methodRet_some h
       exact .unary ho
   | op o mt => intro v h; simp only [inferRef] at h; obtain ⟨r, rfl, rfl⟩ := methodRet_some h; exact .op
-  | index mt bu =>
+  | index b mt bu _ =>
     intro v h
     simp only [inferRef] at h
     cases bu with
@@ -545,122 +530,160 @@ theorem inferRef_sound (Γ : Ctx) : ∀ (e : Expr) (v : Val), inferRef Γ e = so
   | walrus target value _ ihv => intro v h; simp only [inferRef] at h; exact .walrus (ihv v h)
   | other => intro v h; simp [inferRef] at h
 
-/-- the guard under which resolver and reference coincide: no narrowed reference, no enum member reached through
-    its class, every walrus target resolves to what its value resolves to, no subscript of a union-typed value, no
-    call of a class with a special constructor -/
+/-- the guard under which every answer of the resolver is the reference's answer: no narrowed reference, no
+    non-member attribute of an enum class reached through the class, no subscript of a union-typed value, no call of a
+    class with a special constructor -/
 def Plain (Γ : Ctx) : Expr → Prop
   | .name _ _ narrowed => narrowed = none
-  | .member e n narrowed => narrowed = none ∧ Plain Γ e ∧ enumAccess Γ (getMypyType Γ e) n = false
+  | .member e n narrowed => narrowed = none ∧ Plain Γ e ∧ enumNonMember Γ (getMypyType Γ e) n = false
   | .call callee => Plain Γ callee ∧ specialCall Γ (getMypyType Γ callee) = false
-  | .index _ baseUnion => baseUnion = false
+  | .index base _ baseUnion => Plain Γ base ∧ baseUnion = false
   | .await e => Plain Γ e
   | .lambda b => Plain Γ b
-  | .walrus target value => Plain Γ target ∧ Plain Γ value ∧ getMypyType Γ target = getMypyType Γ value
+  | .walrus _ value => Plain Γ value
   | _ => True
 
-/-- on plain expressions of any depth the resolver computes exactly the reference -/
-theorem plain_agree (Γ : Ctx) : ∀ e : Expr, Plain Γ e → getMypyType Γ e = inferRef Γ e := by
+theorem classAttr_agree {Γ : Ctx} {c n : String} {s : Sym} {v : Val} (hl : (Γ.classNames c).lookup n = some s)
+    (hne : enumNonMember Γ (some (.info c)) n = false) (h : classAttr Γ c s = some v) :
+    classAttrRef Γ c n s = some v := by
+  unfold classAttr at h
+  unfold classAttrRef
+  split at h
+  · rename_i t
+    by_cases he : Γ.isEnum c = true
+    · simp only [he, if_true] at h
+      have hm : Γ.isEnumMember c n = true := by
+        simp only [enumNonMember, hl, he, Bool.true_and, Bool.and_true] at hne
+        simpa using hne
+      simp [hm, h]
+    · have he' : Γ.isEnum c = false := by simpa using he
+      simp only [he'] at h
+      have hm : Γ.isEnumMember c n = false := by
+        unfold Ctx.isEnumMember
+        unfold Ctx.isEnum at he'
+        split <;> simp_all
+      simp only [Bool.false_eq_true, if_false] at h
+      simp [hm, h]
+  · exact h
+
+/-- on plain expressions of any depth every answer of the resolver is the reference's answer -/
+theorem plain_agree (Γ : Ctx) : ∀ e : Expr, Plain Γ e → ∀ v, getMypyType Γ e = some v → inferRef Γ e = some v := by
   intro e
   induction e with
-  | name fn node nar => intro h; simp only [Plain] at h; subst h; simp [getMypyType, inferRef]
+  | name fn node nar => intro h v hv; simp only [Plain] at h; subst h; simpa [getMypyType, inferRef] using hv
   | member e n nar ih =>
-    intro h
+    intro h v hv
     simp only [Plain] at h
     obtain ⟨rfl, hp, hen⟩ := h
-    have := ih hp
-    simp only [getMypyType, inferRef]
-    rw [← this]
-    unfold memberRef
-    split
-    · rename_i c heq
-      rw [heq] at hen
-      simp only [enumAccess] at hen
-      simp [hen]
-    · rfl
+    simp only [getMypyType] at hv
+    simp only [inferRef]
+    cases hr : getMypyType Γ e with
+    | none => simp [hr, memberOf] at hv
+    | some recv =>
+      rw [hr] at hv hen
+      rw [ih hp recv hr]
+      unfold memberRef
+      split
+      · rename_i c heq
+        cases heq
+        simp only [memberOf] at hv
+        cases hl : (Γ.classNames c).lookup n with
+        | none => simp [hl] at hv
+        | some s => simp [hl] at hv ⊢; exact classAttr_agree hl hen hv
+      · exact hv
   | call f ih =>
-    intro h
+    intro h v hv
     simp only [Plain] at h
-    simp only [getMypyType, inferRef]
-    rw [← ih h.1]
-    simp [callRef, h.2]
-  | index mt bu => intro h; simp only [Plain] at h; subst h; simp [getMypyType, inferRef]
-  | await e ih => intro h; simp only [getMypyType, inferRef]; rw [ih h]
-  | lambda b ih => intro h; simp only [getMypyType, inferRef]; rw [ih h]
-  | walrus target value iht ihv =>
-    intro h
+    simp only [getMypyType] at hv
+    simp only [inferRef]
+    cases hf : getMypyType Γ f with
+    | none => simp [hf, callOf] at hv
+    | some fv =>
+      rw [hf] at hv
+      rw [ih h.1 fv hf]
+      have := h.2
+      rw [hf] at this
+      simp [callRef, this, hv]
+  | index b mt bu ih =>
+    intro h v hv
     simp only [Plain] at h
-    obtain ⟨_, hv, heq⟩ := h
-    simp only [getMypyType, inferRef]
-    rw [heq]; exact ihv hv
-  | _ => intro _; rfl
+    obtain ⟨_, rfl⟩ := h
+    simp only [getMypyType, indexOf] at hv
+    simp only [inferRef]
+    split at hv
+    · split at hv
+      · simpa using hv
+      · simp at hv
+    · simp at hv
+  | await e ih =>
+    intro h v hv
+    simp only [getMypyType] at hv
+    simp only [inferRef]
+    cases he : getMypyType Γ e with
+    | none => simp [he, awaitOf] at hv
+    | some ev => rw [he] at hv; rw [ih h ev he]; exact hv
+  | lambda b ih =>
+    intro h v hv
+    simp only [getMypyType] at hv
+    simp only [inferRef]
+    cases hb : getMypyType Γ b with
+    | none => simp [hb, lambdaOf] at hv
+    | some bv => rw [hb] at hv; rw [ih h bv hb]; exact hv
+  | walrus target value _ ihv => intro h v hv; exact ihv h v hv
+  | _ => intro _ v hv; exact hv
 
 /-- the full statement: every answer of `get_mypy_type` is a judgement of the reference -/
 def FullResolverSound : Prop := ∀ (Γ : Ctx) (e : Expr) (v : Val), getMypyType Γ e = some v → Res Γ e v
 
 def intTy : Ty := .inst "builtins.int" []
 def myIntTy : Ty := .inst "m.MyInt" []
-
-/-- `w: int`, `v: MyInt` (class MyInt(int)); the expression `(w := v)` -/
-def walrusWitness : Expr :=
-  .walrus (.name "m.w" (some (.var (some intTy))) none) (.name "m.v" (some (.var (some myIntTy))) none)
+def boolTy : Ty := .inst "builtins.bool" []
 
 def emptyCtx : Ctx := { classes := [], modules := [], builtins := [] }
 
-theorem name_declared_inv {Γ : Ctx} {fn : String} {t : Ty} {v : Val} (hb : isBoolLiteral fn = false)
-    (h : Res Γ (.name fn (some (.var (some t))) none) v) : v = .ty t := by
-  cases h with
-  | boolLit hb' _ => simp [hb] at hb'
-  | nameDeclared _ hs => simpa [symVal] using hs.symm
+/-- `x: int` inside `if isinstance(x, bool):` -/
+def narrowedWitness : Expr := .name "m.x" (some (.var (some intTy))) (some boolTy)
 
-/-- FALSE today: the resolver types `(w := v)` by the TARGET's declaration (`int`), mypy by the value (`MyInt`);
-    FURB123 then calls `int(w := v)` redundant although it converts a `MyInt` -/
+/-- FALSE: refurb types a reference by its declaration (`int`), mypy's binder has narrowed it (`bool`); FURB123 then
+    calls `int(x)` redundant although it converts a `bool` -/
 theorem resolver_sound_refuted : ¬ FullResolverSound := by
   intro h
-  have h1 : getMypyType emptyCtx walrusWitness = some (.ty intTy) := by
-    simp [walrusWitness, getMypyType, isBoolLiteral, symVal]
+  have h1 : getMypyType emptyCtx narrowedWitness = some (.ty intTy) := by
+    simp [narrowedWitness, getMypyType, isBoolLiteral, symVal]
   have h2 := h _ _ _ h1
-  cases h2 with
-  | walrus hv =>
-    have := name_declared_inv (by decide) hv
-    simp [intTy, myIntTy] at this
-
-/-- second witness: `x: int` narrowed to `bool` by `isinstance(x, bool)`: the resolver answers `int`, the
-    reference (mypy's binder) `bool` -/
-theorem narrowed_witness :
-    let e := Expr.name "m.x" (some (.var (some intTy))) (some (.inst "builtins.bool" []))
-    getMypyType emptyCtx e = some (.ty intTy) ∧ ∀ v, Res emptyCtx e v → v = .ty (.inst "builtins.bool" []) := by
-  refine ⟨by simp [getMypyType, isBoolLiteral, symVal], ?_⟩
-  intro v h
-  cases h with
-  | boolLit hb' _ => simp [isBoolLiteral] at hb'
-  | nameNarrowed _ => rfl
+  have key : ∀ v, Res emptyCtx narrowedWitness v → v = .ty boolTy := by
+    intro v hv
+    unfold narrowedWitness at hv
+    cases hv with
+    | boolLit hb' _ => simp [isBoolLiteral] at hb'
+    | nameNarrowed _ => rfl
+  have := key _ h2
+  simp [intTy, boolTy] at this
 
 def enumCtx : Ctx :=
   { classes := [{ fullname := "m.IE", mro := ["m.IE", "enum.IntEnum", "builtins.int", "builtins.object"],
-                  names := [("ONE", .var (some intTy))], enumMembers := ["ONE"] }],
+                  names := [("ONE", .var (some intTy))], isEnum := true, enumMembers := ["ONE"] }],
     modules := [], builtins := [] }
 
-/-- third witness: `IE.ONE` for `class IE(IntEnum): ONE = 1`: the resolver answers `int` (the declared type of the
-    class attribute), the reference `IE`; FURB123 calls `int(IE.ONE)` redundant -/
-theorem enum_witness :
+/-- `IE.ONE` for `class IE(IntEnum): ONE = 1`: resolver and reference both answer `IE`, not `int` -/
+theorem enum_member_resolved :
     let e := Expr.member (.name "m.IE" (some (.typeInfo "m.IE")) none) "ONE" none
-    getMypyType enumCtx e = some (.ty intTy) ∧ inferRef enumCtx e = some (.ty (.inst "m.IE" [])) := by
+    getMypyType enumCtx e = some (.ty (.inst "m.IE" [])) ∧ inferRef enumCtx e = some (.ty (.inst "m.IE" [])) := by
   constructor <;> rfl
 
-/-- fourth witness: `v[0]` for `v: list[int] | list[str]`: mypy checks `list[int].__getitem__`, then
-    `list[str].__getitem__`, and `method_type` keeps the last one: the resolver answers `str`, mypy infers `int | str`;
-    FURB123 calls `str(v[0])` redundant.  The reference makes no claim for a subscript of a union. -/
-theorem union_index_witness :
-    let e := Expr.index (some (.callable (.inst "builtins.str" []))) true
-    getMypyType emptyCtx e = some (.ty (.inst "builtins.str" [])) ∧ ∀ v, ¬ Res emptyCtx e v := by
-  refine ⟨rfl, ?_⟩
-  intro v h
-  cases h
+/-- `(w := v)` with `w: int`, `v: MyInt`: typed by the VALUE, as mypy does -/
+theorem walrus_by_value (Γ : Ctx) (t v : Expr) : getMypyType Γ (.walrus t v) = getMypyType Γ v := rfl
+
+/-- `v[0]` for `v: list[int] | list[str]`: the base does not resolve to an `Instance`, so the resolver has no answer
+    (mypy's `method_type` only describes the last union member) -/
+theorem union_index_unresolved :
+    let v := Expr.name "m.v" (some (.var (some (.union [.inst "builtins.list" [intTy], .inst "builtins.list" [.inst "builtins.str" []]])))) none
+    getMypyType emptyCtx (.index v (some (.callable (.inst "builtins.str" []))) true) = none := rfl
 
 /-- TRUE for plain expressions of any depth: what the resolver answers is what the reference infers -/
 theorem resolver_sound_partial (Γ : Ctx) (e : Expr) (v : Val) (hp : Plain Γ e) (h : getMypyType Γ e = some v) :
     Res Γ e v :=
-  inferRef_sound Γ e v (by rw [← plain_agree Γ e hp]; exact h)
+  inferRef_sound Γ e v (plain_agree Γ e hp v h)
 
 /-- in the form of the design: a type answered for a plain expression is the type mypy infers -/
 theorem resolver_sound (Γ : Ctx) (e : Expr) (t : Ty) (hp : Plain Γ e) (h : getMypyType Γ e = some (.ty t)) :
@@ -671,14 +694,14 @@ theorem resolver_sound (Γ : Ctx) (e : Expr) (t : Ty) (hp : Plain Γ e) (h : get
     `and`/`or` and every operator for which mypy recorded no single method, multi-statement lambdas) -/
 theorem unsupported_unresolved (Γ : Ctx) (o : String) :
     getMypyType Γ .other = none ∧ getMypyType Γ .lambdaOther = none ∧ getMypyType Γ (.op o none) = none ∧
-    getMypyType Γ (.index none false) = none ∧ getMypyType Γ (.name "m.undefined" none none) = none := by
-  simp [getMypyType, methodRet, isBoolLiteral]
+    getMypyType Γ (.index .other none false) = none ∧ getMypyType Γ (.name "m.undefined" none none) = none := by
+  simp [getMypyType, methodRet, isBoolLiteral, indexOf]
 
 /-! ### 3. is_subclass over MROs of any length -/
 
 theorem mroMatches_iff (tbl : SimpleTypes) (mro : List String) (es : List Expected) :
     mroMatches tbl mro es = true ↔ ∃ c ∈ mro, ∃ e ∈ es, isSameName tbl c e = true := by
-  simp [mroMatches, isSameType, isSame1, List.any_eq_true]
+  simp [mroMatches, List.any_eq_true]
 
 theorem mroMatches_append (tbl : SimpleTypes) (m₁ m₂ : List String) (es : List Expected) :
     mroMatches tbl (m₁ ++ m₂) es = (mroMatches tbl m₁ es || mroMatches tbl m₂ es) := by
@@ -730,6 +753,11 @@ theorem isSubclass_tuple (tbl : SimpleTypes) (Γ : Ctx) (i₁ i₂ : List Ty) (f
     isSubclass tbl Γ (some (.ty (.tuple i₁ f₁))) es = isSubclass tbl Γ (some (.ty (.tuple i₂ f₂))) es := by
   simp [isSubclass, extractTypeinfo]
 
+/-- the class object itself (`NT`, `dict`) is not an instance of anything: `len(NT) == 0` is not a len-check of a Sized -/
+theorem isSubclass_classobj (tbl : SimpleTypes) (Γ : Ctx) (c : String) (es : List Expected) :
+    isSubclass tbl Γ (some (.info c)) es = false := by
+  simp [isSubclass, extractTypeinfo]
+
 /-- no answer, Any, unions, type variables, callables, modules: never a subclass of anything -/
 theorem isSubclass_never (tbl : SimpleTypes) (Γ : Ctx) (es : List Expected) (r : Ty) (items : List Ty) :
     isSubclass tbl Γ none es = false ∧ isSubclass tbl Γ (some (.ty .any)) es = false ∧
@@ -754,7 +782,7 @@ theorem mypyTypeToPythonType_some {tbl : SimpleTypes} (ok : TableOK tbl) (v : Op
     for `E` a type that is — after alias expansion — exactly an instance of one of the classes `FUNC_NAME_MAPPING`
     lists for `T` (a real tuple for `tuple`). -/
 theorem furb123_partial (Γ : Ctx) (callee : String) (arg : Expr)
-    (hp : Plain Γ arg) (g : Guarded (getMypyType Γ arg))
+    (hp : Plain Γ arg) (g : WellNamed (getMypyType Γ arg))
     (h : furb123 simpleTypes funcNameMapping Γ callee arg = true) :
     ∃ suffix es, funcNameMapping.lookup callee = some (suffix, es) ∧
       ∃ T ∈ es, ∃ t, Infers Γ arg t ∧ ExactlyTy t T := by
@@ -765,7 +793,7 @@ theorem furb123_partial (Γ : Ctx) (callee : String) (arg : Expr)
     obtain ⟨suffix, es⟩ := row
     simp only [hl] at h
     refine ⟨suffix, es, rfl, ?_⟩
-    obtain ⟨T, hT, hex⟩ := isSameType_exact_partial simpleTypes_ok _ es g h
+    obtain ⟨T, hT, hex⟩ := isSameType_exact simpleTypes_ok _ es g h
     have hrow := funcNameMapping_concrete _ (lookup_mem _ _ _ hl)
     have hconc : Concrete T := by
       simp only [fnmRowOK, List.all_eq_true] at hrow
@@ -820,8 +848,8 @@ theorem demo_plain : Plain demoCtx demoArg := by
 
 theorem demo_resolved : getMypyType demoCtx demoArg = some (.ty (.inst "builtins.list" [.typeVar])) := rfl
 
-example : Guarded (getMypyType demoCtx demoArg) := by
-  rw [demo_resolved]; simp [Guarded, GuardedTy]
+example : WellNamed (getMypyType demoCtx demoArg) := by
+  rw [demo_resolved]; simp [WellNamed, WellNamedTy]
 example : ∃ t, Infers demoCtx demoArg t ∧ ExactlyTy t (.pyType "list") :=
   ⟨.inst "builtins.list" [.typeVar], resolver_sound demoCtx demoArg _ demo_plain demo_resolved, by simp [ExactlyTy]⟩
 example : NonQual (.pyType "int") (.alias (.alias (.union [intTy, .none]))) := .alias _ (.alias _ (.union _))
